@@ -93,6 +93,15 @@ def buildStep (st : Store) (b : BuildState) (toks : List String) : Option (Build
             if sys.params.all (fun p => ((pv.find? (·.1 == p.1)).map (·.2.length)) == some (DimSet.shape p.2).prod)
             then showSystem sys pv else "err"
           | _, _ => "err")
+  | ["b_todfs"] =>
+    some (b, match b.dimHandles.mapM st.dim? with
+      | none => "err"
+      | some dl =>
+        let d : MFADef := { dimLetters := b.defLetters.getD (dl.map (·.letter.toString)), processes := b.procs,
+                            flows := b.flows, stocks := b.stocks, params := b.params.map (·.1) }
+        if !d.valid then "err" else
+        "ok " ++ " || ".intercalate ((defTables dl d).map fun t =>
+          s!"{t.1}: {",".intercalate t.2.1} | " ++ " ; ".intercalate (t.2.2.map fun r => ",".intercalate (r.map tilde))))
   | ["b_processes"] =>
     some (b, match makeProcesses? b.procs with
       | some ps => "ok " ++ ",".intercalate (ps.map fun p => s!"{tilde p.1}:{p.2.id}")
